@@ -865,5 +865,6 @@ func mergeContract(dst, src *Contract) {
 	dst.Lets = append(dst.Lets, src.Lets...)
 	dst.Inline = dst.Inline || src.Inline
 	dst.Pure = dst.Pure || src.Pure
+	dst.PureRefs = dst.PureRefs || src.PureRefs
 	dst.NoPanic = dst.NoPanic || src.NoPanic
 }
